@@ -679,6 +679,20 @@ def _unique(ar, return_index=False, return_inverse=False, return_counts=False, a
     return vals
 
 
+@implements(np.clip)
+def _clip(a, a_min=None, a_max=None, out=None, **kw):
+    a = as_sym(a)
+
+    def one(x):
+        x = Q.lift(x)
+        if a_min is not None:
+            x = x.maximum(a_min) if True else x
+        if a_max is not None:
+            x = x.minimum(a_max)
+        return x
+    return _wrap(np.frompyfunc(one, 1, 1)(a.view(np.ndarray)))
+
+
 @implements(np.outer)
 def _outer(a, b, out=None):
     a, b = as_sym(a).ravel(), as_sym(b).ravel()
